@@ -1144,6 +1144,16 @@ static Byte TryConvert(Byte TypeMask, TempType ActType, int OpIndex) {
     return 255;
 }
 
+/* Every parenthesis level, operand of an operator and call of a (possibly
+   self-referencing user-defined) function is one level of recursion of
+   EvalStrExpression().  The depth is limited so that a pathological
+   expression ends with the documented fatal error instead of running the
+   program stack into the ground. */
+
+#define EVAL_NESTMAX 1000
+
+static unsigned EvalNestLevel = 0;
+
 void EvalStrExpression(tStrComp const* pExpr, TempResult* pErg) {
     Operator const* pOp;
     Operator const* FOps[OPERATOR_MAXCNT];
@@ -1165,6 +1175,14 @@ void EvalStrExpression(tStrComp const* pExpr, TempResult* pErg) {
     tSymbolFlags     PromotedFlags;
     unsigned         PromotedAddrSpaceMask;
     tSymbolSize      PromotedDataSize;
+
+    if (EvalNestLevel >= EVAL_NESTMAX) {
+        as_tempres_set_none(pErg);
+        pErg->Relocs = NULL;
+        WrError(ErrNum_StackOvfl);
+        return;
+    }
+    EvalNestLevel++;
 
     for (z1 = 0; z1 < 3; z1++) {
         as_tempres_ini(&InVals[z1]);
@@ -1694,6 +1712,7 @@ func_exit:
         }
         as_tempres_free(&InVals[z1]);
     }
+    EvalNestLevel--;
 }
 
 void EvalExpression(char const* pExpr, TempResult* pErg) {
